@@ -696,6 +696,9 @@ func (r *Runner) cmd(ctx context.Context, cm syntax.Command) {
 			}
 
 			for _, field := range items {
+				if r.stop(ctx) {
+					break // e.g. return or exit in the body; leave the variable alone
+				}
 				r.setVarString(name, field)
 				trace.stringf("for %s in", y.Name.Value)
 				if inToken {
@@ -718,6 +721,9 @@ func (r *Runner) cmd(ctx context.Context, cm syntax.Command) {
 			for y.Cond == nil || r.arithm(y.Cond) != 0 {
 				if !r.exit.ok() || r.loopStmtsBroken(ctx, cm.Do) {
 					break
+				}
+				if r.stop(ctx) {
+					break // e.g. return or exit in the body; do not run the post expression
 				}
 				if y.Post != nil {
 					r.arithm(y.Post)
